@@ -26,6 +26,19 @@ def names(b, *ns):
 
 # ---- StackFrame.get_variable: constants, then the frame's variables, then globals; a parameter set that is
 # not (yet) the frame's variable set -- a call under construction -- is invisible
+# a variable or parameter that holds NOTHING (the argument was a call that returned without a value) is still the variable found:
+# it hides a global of the same name
+c = contract(CS, 'StackFrame.get_variable', serves=['C03', 'C01'], name='StackFrame.get_variable[a variable holding nothing hides the global]')
+def _setup(b, case):
+    g = b.sym('int', 'global_value')
+    fr = PyObj(b.cls('bardolph.vm.call_stack', 'StackFrame'), {
+        'constants': PyDict(), 'vars': PyDict({'x': None}), 'params': PyDict({'x': None}) if case['param'] else PyDict(),
+        'globals': PyDict({'x': g}), 'parent': None, 'return_addr': None})
+    return {'self': fr, 'identifier': 'x'}
+c.setup(_setup)
+c.cases([{'param': 0}, {'param': 1}])
+c.ensures('nothing-not-the-global', 'result is None')
+
 c = contract(CS, 'StackFrame.get_variable', serves=['C03'])
 def _setup(b, case):
     x, y = names(b, 'x', 'y')
